@@ -8,7 +8,10 @@ arguments are universally quantified; nothing is bounded.
 
 `eval` is the code-shaped evaluator (every node transforms the whole mask array the way
 `field.py` does and stores a new buffer through the validity setter), `spec` the index-level
-reading, `evalS` the same evaluation over an abstract store of buffers (ownership).
+reading, `evalS` the same evaluation over an abstract store of buffers (ownership), `wf` the
+acceptance check on shapes, `gradProg` … `ufuncProg` the compound operations as `field.py`
+composes them, `Sess` / `Stmt` sessions of statements with in-place changes (every statement reads
+its operands' masks from the store), `Prog.subst` inlining.
 -/
 namespace DFV.C08
 open DFV
@@ -338,5 +341,392 @@ example : (match evalS exEnv id (.binF (.un (.leaf 0)) (.pos (.leaf 1))) [(exEnv
     | .error _ => none) = some (3, 4) := by decide
 example : (write [[true, false]] 0 1 true).getD 0 [] = [true, true] := by decide
 example : aliasOf (.un (.pos (.leaf 0))) = none ∧ aliasOf (.pos (.pos (.leaf 3))) = some 3 := by decide
+
+/-! ## Acceptance: well-formed programs are accepted, and only those -/
+
+/-- **Accepted = well formed.**  A composition of operations is accepted exactly when it is well
+formed (`wf`, a check on shapes alone: combined fields have the same cells, every mapping
+operation is applicable to the shape it receives, VTK only in three dimensions, setter arguments
+of an acceptable shape and type). -/
+theorem program_accepted_iff (env : Nat → Mask) (p : Prog) : (∃ m, eval env p = .ok m) ↔ wf env p = true :=
+  eval_ok_iff env p
+
+/-- **Refinement without the success hypothesis.**  Every well-formed program evaluates, and its
+mask is the index-level reading on every cell of the predicted shape. -/
+theorem valid_program_total (env : Nat → Mask) (p : Prog) (h : wf env p = true) :
+    ∃ m, eval env p = .ok m ∧ m.shape = shapeOf env p ∧
+      ∀ j, inRange (shapeOf env p) j = true → m.get j = spec env p j := by
+  obtain ⟨m, hm⟩ := (eval_ok_iff env p).mpr h
+  obtain ⟨h1, h2⟩ := eval_spec env p m hm
+  exact ⟨m, hm, h1, fun j hj => h2 j (by rw [h1]; exact hj)⟩
+
+example : wf exEnv (.map (.rot 0 1 1) (.binF (.leaf 0) (.un (.leaf 1)))) = true := by decide
+example : wf exEnv (.binF (.leaf 0) (.map (.take 0 0) (.leaf 1))) = false := by decide
+
+/-! ## Results on a new cell set -/
+
+/-- **`mean` / `integrate` / FFT family / temporary fields.**  A field built without `valid=`
+(directional mean and integral, cumulative integral, `fftn`, `ifftn`, `rfftn`, the
+`Field(mesh, value=3)` inside `f << 3`) is valid in every cell of its own shape, whatever the
+operand's mask was. -/
+theorem valid_fresh (env : Nat → Mask) (k : FreshOp) (p : Prog) (m : Mask) (h : eval env (.fresh k p) = .ok m) :
+    ∃ m0, eval env p = .ok m0 ∧ k.ok m0.shape = true ∧ m.shape = k.shape m0.shape ∧
+      ∀ j, inRange m.shape j = true → m.get j = true := by
+  simp only [eval] at h
+  split at h
+  · cases h
+  · rename_i m0 hm0
+    split at h
+    · rename_i hok
+      obtain ⟨h1, h2⟩ := setMask_spec _ _ _ h
+      refine ⟨m0, hm0, hok, h1, fun j hj => ?_⟩
+      rw [h2 j (by rw [← h1]; exact hj)]
+      simp [specMask]
+    · cases h
+
+example : run (.fresh (.reduce [0]) (.leaf 0)) = some ([3], [true, true, true]) := by decide
+example : run (.fresh .rfft (.leaf 0)) = some ([2, 2], [true, true, true, true]) := by decide
+example : run (.fresh (.reduce [0, 1]) (.leaf 0)) = none := by decide  -- mean over every direction is not a field
+
+/-! ## Several field operands; compound operations -/
+
+/-- **n-ary AND.**  A chain `((a ∘ x₀) ∘ x₁) ∘ …` of field-with-field combinations (Python's `sum`,
+stacking with `<<`, a ufunc with several field inputs) is valid exactly where `a` and every `xᵢ`
+are valid; all operands have the same cells. -/
+theorem valid_nary_and (env : Nat → Mask) (acc : Prog) (xs : List Prog) (m : Mask)
+    (h : eval env (chainF acc xs) = .ok m) :
+    ∃ a, eval env acc = .ok a ∧ m.shape = a.shape ∧
+      (∀ x ∈ xs, ∃ b, eval env x = .ok b ∧ b.shape = a.shape) ∧
+      ∀ j, inRange a.shape j = true →
+        (m.get j = true ↔ a.get j = true ∧ ∀ x ∈ xs, ∃ b, eval env x = .ok b ∧ b.get j = true) := by
+  have hw := (eval_ok_iff env _).mp ⟨m, h⟩
+  rw [chainF_wf, Bool.and_eq_true, List.all_eq_true] at hw
+  obtain ⟨a, ha⟩ := (eval_ok_iff env acc).mpr hw.1
+  obtain ⟨h1, h2⟩ := eval_spec env _ m h
+  obtain ⟨h3, h4⟩ := eval_spec env acc a ha
+  have hs : m.shape = a.shape := by rw [h1, chainF_shapeOf, h3]
+  have each : ∀ x ∈ xs, ∃ b, eval env x = .ok b ∧ b.shape = a.shape ∧
+      ∀ j, inRange a.shape j = true → b.get j = spec env x j := by
+    intro x hx
+    have := hw.2 x hx
+    simp only [Bool.and_eq_true, decide_eq_true_eq] at this
+    obtain ⟨b, hb⟩ := (eval_ok_iff env x).mpr this.1
+    obtain ⟨h5, h6⟩ := eval_spec env x b hb
+    have hbs : b.shape = a.shape := by rw [h5, h3, this.2]
+    exact ⟨b, hb, hbs, fun j hj => h6 j (by rw [hbs]; exact hj)⟩
+  refine ⟨a, ha, hs, fun x hx => (each x hx).imp fun b hb => ⟨hb.1, hb.2.1⟩, fun j hj => ?_⟩
+  rw [h2 j (by rw [hs]; exact hj), chainF_spec, Bool.and_eq_true, List.all_eq_true, h4 j hj]
+  constructor
+  · rintro ⟨e1, e2⟩
+    refine ⟨e1, fun x hx => ?_⟩
+    obtain ⟨b, hb, _, hg⟩ := each x hx
+    exact ⟨b, hb, by rw [hg j hj]; exact e2 x hx⟩
+  · rintro ⟨e1, e2⟩
+    refine ⟨e1, fun x hx => ?_⟩
+    obtain ⟨b, hb, hbg⟩ := e2 x hx
+    obtain ⟨b', hb', _, hg⟩ := each x hx
+    rw [hb] at hb'; simp only [Except.ok.injEq] at hb'; subst hb'
+    rw [← hg j hj]; exact hbg
+
+example : run (chainF (.leaf 0) [.leaf 1, .un (.leaf 0), .leaf 1]) = some ([2, 3], [true, false, false, true, false, false]) := by
+  decide
+
+/-- **ufuncs.**  `np.add(f, g)`, `np.divmod(f, g)`, `np.float64(2) * f`, …: the result of a NumPy
+ufunc is valid exactly where ALL its field inputs are valid (`np.logical_and.reduce`), for any
+number of field inputs. -/
+theorem valid_ufunc (env : Nat → Mask) (x : Prog) (xs : List Prog) (m : Mask)
+    (h : eval env (ufuncProg (x :: xs)) = .ok m) (j : List Nat) (hj : inRange m.shape j = true) :
+    m.get j = (x :: xs).all fun y => spec env y j := by
+  rw [(eval_spec env _ m h).2 j hj]
+  exact (ufuncProg_facts env x xs).2.1 j
+
+/-- **`sum`.**  Python's `sum` of fields (`0 + x₀ + x₁ + …`, the form `div` and `laplace` use) is
+valid exactly where every summand is. -/
+theorem valid_sum (env : Nat → Mask) (x : Prog) (xs : List Prog) (m : Mask)
+    (h : eval env (sumProg (x :: xs)) = .ok m) (j : List Nat) (hj : inRange m.shape j = true) :
+    m.get j = (x :: xs).all fun y => spec env y j := by
+  rw [(eval_spec env _ m h).2 j hj]
+  simp only [sumProg]
+  rw [chainF_spec]; rfl
+
+example : run (ufuncProg [.leaf 0, .leaf 1, .leaf 0]) = run (.binF (.leaf 0) (.leaf 1)) := by decide
+
+/-- **`grad`, any number of directions.**  The gradient of a scalar field on a mesh with `nd ≥ 1`
+directions (derivatives stacked with `<<`) has the operand's validity — and is accepted whenever
+the operand is. -/
+theorem valid_grad (env : Nat → Mask) (nd : Nat) (hn : 0 < nd) (p : Prog) :
+    (wf env (gradProg nd p) = wf env p) ∧ ∀ m, eval env (gradProg nd p) = .ok m →
+      ∃ m0, eval env p = .ok m0 ∧ m.shape = m0.shape ∧ ∀ j, inRange m0.shape j = true → m.get j = m0.get j := by
+  obtain ⟨h1, h2, h3⟩ := gradProg_facts env nd p hn
+  exact ⟨h3, same_mask_of_spec env _ p h1 h2 (by rw [h3]; exact id)⟩
+
+/-- **`div`, any number of components.**  The divergence (sum over the `nv ≥ 1` components of the
+derivative of each component) has the operand's validity. -/
+theorem valid_div (env : Nat → Mask) (nv : Nat) (hn : 0 < nv) (p : Prog) :
+    (wf env (divProg nv p) = wf env p) ∧ ∀ m, eval env (divProg nv p) = .ok m →
+      ∃ m0, eval env p = .ok m0 ∧ m.shape = m0.shape ∧ ∀ j, inRange m0.shape j = true → m.get j = m0.get j := by
+  obtain ⟨h1, h2, h3⟩ := divProg_facts env nv p hn
+  exact ⟨h3, same_mask_of_spec env _ p h1 h2 (by rw [h3]; exact id)⟩
+
+/-- **`curl`.**  Three differences of derivatives of components, stacked: the operand's validity. -/
+theorem valid_curl (env : Nat → Mask) (p : Prog) :
+    (wf env (curlProg p) = wf env p) ∧ ∀ m, eval env (curlProg p) = .ok m →
+      ∃ m0, eval env p = .ok m0 ∧ m.shape = m0.shape ∧ ∀ j, inRange m0.shape j = true → m.get j = m0.get j := by
+  obtain ⟨h1, h2, h3⟩ := curlProg_facts env p
+  exact ⟨h3, same_mask_of_spec env _ p h1 h2 (by rw [h3]; exact id)⟩
+
+/-- **`laplace`, any number of directions and components.**  Per component the sum of the second
+derivatives over all `nd ≥ 1` directions, the `nv ≥ 1` results stacked: the operand's validity. -/
+theorem valid_laplace (env : Nat → Mask) (nd nv : Nat) (hd : 0 < nd) (hv : 0 < nv) (p : Prog) :
+    (wf env (laplaceProg nd nv p) = wf env p) ∧ ∀ m, eval env (laplaceProg nd nv p) = .ok m →
+      ∃ m0, eval env p = .ok m0 ∧ m.shape = m0.shape ∧ ∀ j, inRange m0.shape j = true → m.get j = m0.get j := by
+  obtain ⟨h1, h2, h3⟩ := laplaceProg_facts env nd nv p hd hv
+  exact ⟨h3, same_mask_of_spec env _ p h1 h2 (by rw [h3]; exact id)⟩
+
+example : run (gradProg 2 (.leaf 0)) = run (.un (.leaf 0)) ∧ run (divProg 2 (.leaf 0)) = run (.un (.leaf 0)) ∧
+    run (curlProg (.leaf 0)) = run (.un (.leaf 0)) ∧ run (laplaceProg 2 3 (.leaf 0)) = run (.un (.leaf 0)) ∧
+    run (laplaceProg 2 1 (.leaf 0)) = run (.un (.leaf 0)) := by decide
+
+/-- **Number operands that become fields, reflected operators.**  `f << 3` and `3 << f` (the
+number is first turned into an all-valid field on the same mesh and then combined), `other - f`
+(`-f + other`) and `other & f` (`-(f & other)`) carry `f`'s validity. -/
+theorem valid_reflected (env : Nat → Mask) (p : Prog) (P : Prog)
+    (hP : P = lshiftConstProg p ∨ P = rlshiftConstProg p ∨ P = rsubProg p ∨ P = rcrossProg p) (m : Mask)
+    (h : eval env P = .ok m) :
+    ∃ m0, eval env p = .ok m0 ∧ m.shape = m0.shape ∧ ∀ j, inRange m0.shape j = true → m.get j = m0.get j := by
+  rcases hP with rfl | rfl | rfl | rfl
+  · exact same_mask_of_spec env (lshiftConstProg p) p rfl (fun j => by simp [lshiftConstProg, spec])
+      (by simp only [lshiftConstProg, wf, Bool.and_eq_true]; tauto) m h
+  · exact same_mask_of_spec env (rlshiftConstProg p) p rfl (fun j => by simp [rlshiftConstProg, spec])
+      (by simp only [rlshiftConstProg, wf, Bool.and_eq_true]; tauto) m h
+  · exact same_mask_of_spec env (rsubProg p) p rfl (fun j => rfl) (by simp [rsubProg, wf]) m h
+  · exact same_mask_of_spec env (rcrossProg p) p rfl (fun j => rfl) (by simp [rcrossProg, wf]) m h
+
+example : run (lshiftConstProg (.leaf 0)) = run (.un (.leaf 0)) ∧ run (rlshiftConstProg (.leaf 1)) = run (.un (.leaf 1)) := by
+  decide
+
+/-- **The constructor route.**  Every operation ends in `Field(..., valid=<Boolean array>)`, i.e. in
+the setter with an array of the mesh shape: what is stored is a copy (`own`) of exactly that
+array — `True` where it was `True`, `False` where it was `False`. -/
+theorem ctor_route_stores_copy (m : Mask) : setMask m.shape (.arr (asArr m)) = .ok (own m) :=
+  setMask_asArr m
+
+/-- **Re-assigning a mask changes nothing.**  `g.valid = f.valid` for a mask the setter produced:
+same shape, same value in every cell (`f.valid = f.valid` is the identity on validity). -/
+theorem setter_idempotent (n : List Nat) (s : MSpec) (m : Mask) (h : setMask n s = .ok m) :
+    ∃ m', setMask n (.arr (asArr m)) = .ok m' ∧ m'.shape = n ∧ ∀ j, inRange n j = true → m'.get j = m.get j := by
+  have hs := (setMask_spec n s m h).1
+  refine ⟨own m, by rw [← hs]; exact setMask_asArr m, hs, fun j hj => own_get m j (by rw [hs]; exact hj)⟩
+
+example : setMask [2, 3] (.arr (asArr (exEnv 0))) = .ok (own (exEnv 0)) := ctor_route_stores_copy (exEnv 0)
+
+/-- **`'norm'` on empty cells.**  A cell whose stored value is the zero vector (any number of
+components) is invalid after `valid = 'norm'`. -/
+theorem setter_norm_zero (f g : Fld) (h : setValid f .norm = .ok g) (j : List Nat) (hj : inRange f.mesh.n j = true)
+    (hz : ∀ c ∈ f.data.get j, c = 0) : g.valid.get j = false := by
+  have hsq : sumSq (f.data.get j) = 0 := by
+    generalize f.data.get j = l at hz
+    induction l with
+    | nil => rfl
+    | cons c cs ih =>
+      simp only [sumSq]
+      rw [hz c (by simp), ih (fun x hx => hz x (by simp [hx]))]; simp
+  have := (setter_norm f g h j hj).not
+  rw [hsq] at this
+  have hn : ¬ (atol * atol < (0 : Rat)) := by unfold atol; norm_num
+  simpa using this.mpr hn
+
+/-! ## Sessions: ownership over whole histories with in-place changes
+
+A session is a history of statements over numbered variables: `x_new = <expression>`,
+`x_i.valid = spec`, `x_i.rotate90(..., inplace=True)`, `x_i.valid[idx] = v`.  Every statement
+reads its operands' masks from the store as it is at that moment. -/
+
+/-- **Invariant, all histories.**  After any history from any input fields: every variable names
+an object, every object's mask buffer lies in the store, and two variables read the same buffer
+exactly when they are names of ONE object (which only `y = +x` creates). -/
+theorem session_invariant (leaves : List Mask) (h : List Stmt) (st : Sess) (hr : (Sess.init leaves).run h = .ok st) :
+    (∀ i, i < st.vars.length → st.objOf i < st.objs.length ∧ st.addrOf i < st.store.length) ∧
+    ∀ i j, i < st.vars.length → j < st.vars.length → (st.addrOf i = st.addrOf j ↔ st.objOf i = st.objOf j) := by
+  have hI := Sess.run_inv h _ st (Sess.init_inv leaves) hr
+  refine ⟨fun i hi => ⟨hI.vars_lt i hi, hI.addr_lt _ (hI.vars_lt i hi)⟩, fun i j hi hj => ⟨fun he => ?_, fun he => ?_⟩⟩
+  · exact hI.addr_inj _ _ (hI.vars_lt i hi) (hI.vars_lt j hj) he
+  · unfold Sess.addrOf; rw [he]
+
+/-- **Write-through, at any point of any history.**  `x_i.valid[idx] = v` leaves the mask of every
+variable that is not a name of the same object exactly as it was. -/
+theorem session_write_isolated (leaves : List Mask) (h : List Stmt) (st st' : Sess)
+    (hr : (Sess.init leaves).run h = .ok st) (i pos : Nat) (v : Bool) (hs : st.step (.poke i pos v) = .ok st')
+    (j : Nat) (hj : j < st.vars.length) (hne : st.objOf j ≠ st.objOf i) : st'.mask j = st.mask j :=
+  Sess.poke_other st st' (Sess.run_inv h _ st (Sess.init_inv leaves) hr) i pos v hs j hj hne
+
+/-- **Assigning validity in place.**  `x_i.valid = spec` at any point of any history: the argument
+is judged against the shape of `x_i`; afterwards every name of that object reads the new mask,
+every other variable reads what it read before, and the old buffer is still in the store,
+untouched (the store only grew). -/
+theorem session_assign (leaves : List Mask) (h : List Stmt) (st st' : Sess)
+    (hr : (Sess.init leaves).run h = .ok st) (i : Nat) (s : MSpec) (hs : st.step (.assign i s) = .ok st') :
+    ∃ m, setMask (st.shapeOfVar i) s = .ok m ∧
+      (∀ j, j < st.vars.length → st.objOf j ≠ st.objOf i → st'.mask j = st.mask j) ∧
+      (∀ j, st.objOf j = st.objOf i → st'.mask j = m.force false) ∧
+      st'.store = st.store ++ [m.toList] :=
+  (Sess.assign_effect st st' (Sess.run_inv h _ st (Sess.init_inv leaves) hr) i s hs).imp
+    fun _ hm => ⟨hm.1, hm.2.1, hm.2.2.1, hm.2.2.2.1⟩
+
+/-- **In-place quarter turn.**  `x_i.rotate90(ax1, ax2, k, inplace=True)` stores the turned mask
+(the same `rot90` as for the values) in a new buffer of the same object; no other object's mask
+changes. -/
+theorem session_rotate_inplace (leaves : List Mask) (h : List Stmt) (st st' : Sess)
+    (hr : (Sess.init leaves).run h = .ok st) (i a b : Nat) (k : Int) (hs : st.step (.rotI i a b k) = .ok st') :
+    (∀ j, j < st.vars.length → st.objOf j ≠ st.objOf i → st'.mask j = st.mask j) ∧
+    (∀ j, st.objOf j = st.objOf i → st'.mask j = (own ((MapOp.rot a b k).apply (st.mask i) false)).force false) :=
+  let e := Sess.rotI_effect st st' (Sess.run_inv h _ st (Sess.init_inv leaves) hr) i a b k hs
+  ⟨e.2.1, e.2.2.1⟩
+
+/-- **Building a field.**  `x_new = <expression over the variables>` evaluates the expression on
+the masks the variables have NOW, changes no existing variable, and — unless the expression is a
+variable itself behind unary plus — the new variable is a new object whose buffer was not in the
+store before. -/
+theorem session_build (leaves : List Mask) (h : List Stmt) (st st' : Sess)
+    (hr : (Sess.init leaves).run h = .ok st) (p : Prog) (hs : st.step (.build p) = .ok st') :
+    ∃ m, eval st.mask p = .ok m ∧
+      (∀ j, j < st.vars.length → st'.mask j = st.mask j) ∧
+      (aliasOf p = none → st'.mask st.vars.length = m.force false ∧ st'.objOf st.vars.length = st.objs.length ∧
+        st'.addrOf st.vars.length = st.store.length) := by
+  obtain ⟨m, h1, h2, _, h4, _⟩ := Sess.build_effect st st' (Sess.run_inv h _ st (Sess.init_inv leaves) hr) p hs
+  exact ⟨m, h1, fun j hj => (h2 j hj).1, h4⟩
+
+/-- **Without unary plus every variable is its own object**, after any history. -/
+theorem session_distinct_without_plus (leaves : List Mask) (h : List Stmt) (st : Sess)
+    (hr : (Sess.init leaves).run h = .ok st) (ha : (h.all fun s => !s.aliases) = true) (i j : Nat)
+    (hi : i < st.vars.length) (hj : j < st.vars.length) (he : st.objOf i = st.objOf j) : i = j :=
+  Sess.run_distinct h _ st (Sess.init_inv leaves) (Sess.init_distinct leaves) ha hr i j hi hj he
+
+/-- **A result's validity is its own — over whole histories.**  Take any history without unary
+plus, any variable `j` that exists at some point of it, and ANY continuation in which no
+statement is an in-place change of `j` itself: builds of new fields from `j`, assignments,
+in-place rotations and element writes on every other variable (operands and results alike).
+At the end `j` reads exactly the mask it read at that point. -/
+theorem session_ownership (leaves : List Mask) (h1 h2 : List Stmt) (st st' : Sess)
+    (hr1 : (Sess.init leaves).run h1 = .ok st) (ha1 : (h1.all fun s => !s.aliases) = true) (j : Nat)
+    (hj : j < st.vars.length) (ha2 : (h2.all fun s => !s.aliases && decide (s.target ≠ some j)) = true)
+    (hr2 : st.run h2 = .ok st') : st'.mask j = st.mask j :=
+  Sess.run_keeps h2 j st st' (Sess.run_inv h1 _ st (Sess.init_inv leaves) hr1)
+    (Sess.run_distinct h1 _ st (Sess.init_inv leaves) (Sess.init_distinct leaves) ha1 hr1) hj ha2 hr2
+
+/-- **Unary plus (code as it stands, D7).**  `y = +x_i` gives a second name to the object of
+`x_i`: a later write through `y` is a write into `x_i`'s buffer. -/
+theorem session_unary_plus_shares (st st1 st2 : Sess) (i pos : Nat) (v : Bool)
+    (h1 : st.step (.build (.pos (.leaf i))) = .ok st1) (h2 : st1.step (.poke st.vars.length pos v) = .ok st2) :
+    st1.objOf st.vars.length = st.objOf i ∧
+    st2.store.getD (st2.addrOf i) [] = (st1.store.getD (st1.addrOf i) []).set pos v := by
+  have e1 : st1 = { st with vars := st.vars ++ [st.objOf i] } := by
+    simp only [Sess.step] at h1
+    split at h1
+    · cases h1
+    · simp only [eval, aliasOf, Except.ok.injEq] at h1; exact h1.symm
+  have ho : st1.objOf st.vars.length = st.objOf i := by
+    subst e1; exact getD_append_len _ _ _
+  have hi : i < st.vars.length := by
+    simp only [Sess.step] at h1
+    split at h1
+    · cases h1
+    · rename_i hl; simpa [leavesLt] using hl
+  have ho' : st1.objOf i = st.objOf i := by
+    subst e1; exact getD_append_lt _ _ _ _ hi
+  exact ⟨ho, (Sess.poke_same st1 st2 _ pos v h2 i (by rw [ho', ho])).2⟩
+
+example : (match (Sess.init [exEnv 0, exEnv 1]).run
+      [.build (.binF (.leaf 0) (.leaf 1)), .poke 2 0 false, .assign 0 (.const 0), .rotI 1 0 1 1, .build (.un (.leaf 2))] with
+    | .ok st => some (st.vars, (st.mask 0).toList, (st.mask 1).shape, (st.mask 2).toList, (st.mask 3).toList)
+    | .error _ => none)
+    = some ([0, 1, 2, 3], [false, false, false, false, false, false], [3, 2],
+            [false, false, false, true, false, false], [false, false, false, true, false, false]) := by decide
+example : (match (Sess.init [exEnv 0]).run [.build (.pos (.leaf 0)), .poke 1 1 true] with
+    | .ok st => some (st.vars, (st.mask 0).toList)
+    | .error _ => none) = some ([0, 0], [true, true, true, true, true, false]) := by decide
+
+/-! ## A field as validity; laws of the mapping operations -/
+
+/-- **A Boolean field as validity.**  `valid = <scalar field of Booleans on a mesh whose region
+contains this one>` (what `resample` hands to the constructor) is accepted, gives the mesh shape,
+and every cell reads the field's cell whose centre is nearest to its own, axis by axis — a cell
+INSIDE the field's array. -/
+theorem setter_field_lookup (n : List Nat) (src : Mask) (cs xs : Nat → Nat → Rat) (hl : src.shape.length = n.length)
+    (hpos : ∀ b, b < src.shape.length → 0 < src.shape.getD b 0) :
+    ∃ m, setMask n (.lookup src true cs xs) = .ok m ∧ m.shape = n ∧
+      ∀ j, inRange n j = true → inRange src.shape (lookupIdx src.shape cs xs j) = true ∧
+        m.get j = src.get (lookupIdx src.shape cs xs j) := by
+  obtain ⟨m, hm⟩ := (setMask_ok_iff n (.lookup src true cs xs)).mpr (by simp [MSpec.ok, hl])
+  obtain ⟨h1, h2⟩ := setMask_spec _ _ _ hm
+  exact ⟨m, hm, h1, fun j hj => ⟨lookupIdx_inRange _ _ _ _ hpos, h2 j hj⟩⟩
+
+/-- **`resample` IS the setter with a field.**  `field.py` resamples the validity by handing
+`Field(self.mesh, nvdim=1, value=self.valid, dtype=bool)` as `valid=` to the constructor on the new
+mesh; with both meshes on the same region (any corner `lo`, any edge lengths `E > 0`) the stored
+mask is exactly the mapping operation `resample` applied to the mask, for all shapes. -/
+theorem resample_is_field_setter (m : Mask) (n' : List Nat) (hl : m.shape.length = n'.length) (lo E : Nat → Rat)
+    (hE : ∀ b, 0 < E b) :
+    setMask n' (.lookup m true (fun b k => lo b + ((k : Rat) + 1 / 2) * (E b / (m.shape.getD b 0 : Rat)))
+        (fun b k => lo b + ((k : Rat) + 1 / 2) * (E b / (n'.getD b 0 : Rat))))
+      = .ok (own ((MapOp.resample n').apply m false)) :=
+  setMask_lookup_resample m n' hl lo E hE
+
+example : (match setMask [4, 2] (.lookup (exEnv 0) true (fun _ k => ((k : Rat) + 1 / 2) * (1 / ([2, 3].getD 0 0 : Rat)))
+      (fun b k => ((k : Rat) + 1 / 2) * (1 / ([4, 2].getD b 0 : Rat)))) with
+    | .ok m => some m.shape
+    | .error _ => none) = some [4, 2] := by decide
+example : (match setMask [4, 2] (.lookup (exEnv 0) false (fun _ _ => 0) (fun _ _ => 0)) with
+    | .ok _ => true
+    | .error _ => false) = false := by decide
+
+/-- **Padding and taking the original block back.**  For every pad mode and all widths,
+`f.pad(w, mode)[region of f]` (also the `out[slices]` step of `diff` on a periodic mesh) has
+exactly `f`'s validity; it is accepted whenever `f` is, has one width pair per axis and no empty
+axis. -/
+theorem pad_then_crop_back (env : Nat → Mask) (mode : PadMode) (w : List (Nat × Nat)) (p : Prog) :
+    (wf env p = true → w.length = (shapeOf env p).length →
+      (∀ b, b < (shapeOf env p).length → 0 < (shapeOf env p).getD b 0) →
+      wf env (.map (unpad w (shapeOf env p)) (.map (.pad mode w) p)) = true) ∧
+    ∀ m, eval env (.map (unpad w (shapeOf env p)) (.map (.pad mode w) p)) = .ok m →
+      ∃ m0, eval env p = .ok m0 ∧ m.shape = m0.shape ∧ ∀ j, inRange m0.shape j = true → m.get j = m0.get j := by
+  obtain ⟨h1, h2, h3, h4⟩ := unpad_pad_facts env mode w p
+  exact ⟨h4, same_mask_of_spec_in env _ p h1 h2 h3⟩
+
+example : run (.map (unpad [(2, 1), (0, 3)] [2, 3]) (.map (.pad .symmetric [(2, 1), (0, 3)]) (.leaf 0))) = run (.un (.leaf 0)) := by
+  decide
+
+/-- **Well-formed arguments are accepted.**  `None`, `'norm'`, any number, any callable and any
+array of the mesh shape are accepted by the setter on EVERY field (no hypothesis on the field). -/
+theorem setValid_accepts (f : Fld) (s : VSpec)
+    (hs : s = .none ∨ s = .norm ∨ (∃ v, s = .const v) ∨ (∃ fn, s = .func fn) ∨ ∃ a, s = .arr a ∧ a.shape = f.mesh.n) :
+    ∃ g, setValid f s = .ok g := by
+  rcases hs with rfl | rfl | ⟨v, rfl⟩ | ⟨fn, rfl⟩ | ⟨a, rfl, ha⟩
+  · exact ⟨_, rfl⟩
+  · exact ⟨_, rfl⟩
+  · exact ⟨_, rfl⟩
+  · exact ⟨_, rfl⟩
+  · exact ⟨_, by simp only [setValid, toMSpec, setMask, if_pos ha]; rfl⟩
+
+example : ∃ g, setValid exFld .norm = .ok g := setValid_accepts exFld .norm (Or.inr (Or.inl rfl))
+
+/-! ## Step by step = inlined -/
+
+/-- **Compositions: step-by-step evaluation is evaluation of the inlined expression.**  Let the
+inputs of `p` be results of earlier programs `σ k` that evaluate to the masks `vals k`.  Then
+running `p` on those stored results and running the single inlined expression `p.subst σ` on the
+original input fields accept exactly the same programs and produce the same shape and the same
+validity in every cell — for all programs, by induction (the index-level reading commutes with
+substitution, and evaluation depends only on shapes and in-range entries of its inputs). -/
+theorem stepwise_is_inlined (env vals : Nat → Mask) (σ : Nat → Prog) (hσ : ∀ k, eval env (σ k) = .ok (vals k))
+    (p : Prog) :
+    ((∃ m, eval env (p.subst σ) = .ok m) ↔ ∃ m', eval vals p = .ok m') ∧
+    ∀ m m', eval env (p.subst σ) = .ok m → eval vals p = .ok m' →
+      m.shape = m'.shape ∧ ∀ j, inRange m'.shape j = true → m.get j = m'.get j :=
+  eval_subst env vals σ hσ p
+
+example : ∀ k, eval exEnv ((fun k => Prog.un (.leaf k)) k) = .ok ((fun k => own (exEnv k)) k) := fun _ => rfl
+example : (Prog.binF (.leaf 0) (.map (.rot 0 1 2) (.leaf 1))).subst (fun k => .un (.leaf k))
+    = .binF (.un (.leaf 0)) (.map (.rot 0 1 2) (.un (.leaf 1))) := rfl
 
 end DFV.C08
